@@ -116,6 +116,11 @@ def run(m, tier):
     results.append(r5)
     from rules import regex_rules
     results += regex_rules.c13_rules(m)
+    from rules import C08, order_rules
+    from sa.report import retag
+    results.append(order_rules.shared_state_rule(m, "C13.R7", ["fparser.common"], floor=12))
+    results.append(retag(C08.r4_opener_index(m), "C13.R6", "the block engine addresses the opening statement by start_idx: unresolved "
+                         "Include_Stmt nodes collected before it come first in `content` (shared with C08.R4)"))
     expl = ("Decides structural clauses of C13: the include search visits self.include_dirs in order and stops at the first existing "
             "file; an unresolved INCLUDE line is returned as an ordinary item and Include_Stmt is tried at every position (per call "
             "site of the block engine and around program units, in both directive modes); the nested reader gets the path, the "
